@@ -59,6 +59,7 @@ class Run(object):
         self.logpos = 0
         self.handles = {}          # handle -> open count (from the interposition log)
         self.hord = {}
+        self.inline_ffi = None
 
     # ---- interposition log ----
     def scan_log(self, where):
@@ -104,8 +105,15 @@ class Run(object):
         if len(self.libs) >= 3:
             return
         if mode.startswith('inline'):
-            ffi = self.check.cffi.FFI()
-            ffi.cdef(CDEF)
+            # library objects opened through the SAME in-line ffi (the usual case) or through another one
+            if self.inline_ffi is None or mode.startswith('inline2'):
+                ffi = self.check.cffi.FFI()
+                ffi.cdef(CDEF)
+                if self.inline_ffi is None:
+                    self.inline_ffi = ffi
+            else:
+                ffi = self.inline_ffi
+                self.out.probe('second_library_object_from_the_same_inline_ffi')
         else:
             ffi = self.check.mod.ffi
         if mode.endswith('_handle'):
@@ -298,6 +306,19 @@ class Run(object):
         gc.collect()
 
     def apply(self, op):
+        try:
+            self.apply1(op)
+        except (Violation, HarnessError):
+            raise
+        except Exception as e:
+            # every access that is expected to raise is caught where it is made; anything that arrives
+            # here was raised by an operation on a library object that is OPEN
+            closed = sum(1 for l in self.libs if l.closed)
+            raise Violation('C37.3', 'operation %r on an open library raised %s: %s (%d other library object(s) '
+                            'closed so far: closing one must not affect another)'
+                            % (op[:3], type(e).__name__, e, closed))
+
+    def apply1(self, op):
         n = op[0]
         if n == 'open':
             self.op_open(op[1])
@@ -387,7 +408,7 @@ class C37(core.Check):
         self.v_dl_log = (DlEv * 4096).in_dll(self.shim, 'cffi_verif_dl_log')
 
     def generate(self, rng, idx, tier):
-        modes = ['inline', 'inline', 'module', 'module', 'inline_handle', 'module_handle']
+        modes = ['inline', 'inline', 'inline2', 'module', 'module', 'inline_handle', 'module_handle']
         ops = [['open', rng.choice(modes)]]
         for _ in range(rng.randint(3, 30)):
             n = rng.weighted([('open', 4), ('func', 22), ('readvar', 18), ('writevar', 12), ('addressof', 6),
